@@ -238,7 +238,7 @@ CLAIMED = {
  "C13": dict(
    text=("Lean theorems over exact rationals: Size.as_percentage_of returns exactly px*100/dim, em*16, pt*4/3, cells/32|15 for every value and dimension "
          "(relativize_exact), refuses with the relativization error when the dimension is missing (relativize_refuses), always yields a percentage "
-         "(relativize_unit, relativized_origin_is_percent, relativized_extent_is_percent, relativized_padding_is_percent), a whole layout - origin, extent, padding, any of them absent - relativized with both dimensions never fails and every length becomes the percentage it denotes (relativize_layout_exact), an absolute horizontal origin without a width refuses the whole layout (relativize_layout_refuses_origin), relativizing a result again changes nothing (relativize_size_idempotent); Layout.fit_to_screen: right edge <= 90 and bottom <= 95 for every fitted layout (fit_edges_le), missing extent reaches "
+         "(relativize_unit, relativized_origin_is_percent, relativized_extent_is_percent, relativized_padding_is_percent), a whole layout - origin, extent, padding, any of them absent - relativized with both dimensions never fails and every length becomes the percentage it denotes (relativize_layout_exact), an absolute horizontal origin without a width refuses the whole layout (relativize_layout_refuses_origin), relativizing a result again changes nothing, for a size and for a whole layout, with or without dimensions (relativize_size_idempotent, relativize_layout_idempotent); Layout.fit_to_screen: right edge <= 90 and bottom <= 95 for every fitted layout (fit_edges_le), missing extent reaches "
          "exactly the edges, fitting extent unchanged; the constants 16, 72/96, 100, 32x15, 90/95 are regenerated from geometry.py and pinned. "
          "Correspondence on the unit x value x axis x dimension grid and on random layouts through BaseWriter._relativize_and_fit_to_screen."),
    ref="§3 C13", technique="Lean 4 proof (rational arithmetic, linarith/ring) + translator-pinned constants + differential correspondence",
